@@ -372,7 +372,7 @@ static StepReport run_history(const History& hs, HistStats& st) {
     if (call_uses_part(call.id)) st.part_calls++;
     if (call.src_region == call.region && (call.id == K_ASSIGN_FROM || call.id == K_MUL_ASSIGN || call.id == K_MAP_ASSIGN_MAP ||
                                             call.id == K_COMPOSE || call.id == K_RMINUS || call.id == K_CONSTRUCT_INTO ||
-                                            call.id == K_ASSIGN_FROM_TEMP_VIEW || call.id == K_PART_FROM_TEMP_VIEW || call.id == K_MAP_MOVE_ASSIGN))
+                                            call.id == K_ASSIGN_FROM_TEMP_VIEW || call.id == K_PART_FROM_TEMP_VIEW || call.id == K_MAP_MOVE_ASSIGN || call.id == K_MOVED_VIEW_WRITE))
       st.overlapping++;
     if (call.stale) st.stale++;
     st.intercepted_writes += sim::ws_count();
